@@ -34,6 +34,10 @@ VERIF_DIR = Path(__file__).resolve().parent.parent
 NPROC = int(os.environ.get("VERIF_NPROC", "16"))
 
 
+def evidence_dir() -> Path:
+    return Path(os.environ.get("VERIF_EVIDENCE_DIR", str(VERIF_DIR / "evidence")))
+
+
 def repo_dir() -> Path:
     return Path(os.environ.get("VERIF_REPO", "/repo"))
 
@@ -351,7 +355,7 @@ def write_evidence(mod, tier, seed_value, coverage, wall, violations, out_dir=No
         "wall_s": round(wall, 2),
         "violations": violations,
     }
-    d = Path(out_dir) if out_dir else VERIF_DIR / "evidence"
+    d = Path(out_dir) if out_dir else evidence_dir()
     d.mkdir(parents=True, exist_ok=True)
     (d / f"{mod.ID}.json").write_text(json.dumps(ev, indent=1) + "\n")
 
@@ -428,7 +432,7 @@ def run_property(mod, tier, only=None):
             ps["failures"].append(r["failure"])
 
     # 3. report
-    rp_dir = VERIF_DIR / "evidence" / "replays"
+    rp_dir = evidence_dir() / "replays"
     for name, ps in per_sub.items():
         if ps["failures"]:
             # smallest failing case over the workers
